@@ -187,7 +187,7 @@ def _verdict(pid, prop, tier, seed, agg, wall, replay):
             print("HARNESS-ERROR", json.dumps(he, default=str)[:3000], file=sys.stderr)
     for sp in agg["shard_problems"][:3]:
         print("SHARD-PROBLEM", json.dumps(sp, default=str)[:3000], file=sys.stderr)
-    if not replay:
+    if not replay and not os.environ.get("VERIF_NO_EVIDENCE"):
         evidence.write(pid, prop, tier, seed, agg, wall, len(new_viol), known_hits, inconclusive)
     summary = (f"{pid} tier={tier} seed={seed} evaluations={agg['evaluations']} distinct_nontrivial={nd} "
                f"violations={len(new_viol)} known={sum(h['n'] for h in known_hits.values())} "
